@@ -150,10 +150,13 @@ def search(run, info):
     decl_stats = st_corr.check_fbd(run, info, 150 if run.tier == "quick" else 2500, 600 if run.tier == "quick" else 8000, "c01")
     # ---- the library model: several function blocks and programs ----
     lib_stats = st_corr.check_lib(run, info, 120 if run.tier == "quick" else 2000, 500 if run.tier == "quick" else 8000, "c01")
+    # ---- ... with TYPE blocks (arrays, subranges, enumerations, simple and late-bound declarations) ----
+    lib2_stats = st_corr.check_lib2(run, info, 100 if run.tier == "quick" else 2000, 600 if run.tier == "quick" else 10000, "c01")
     return {"coverage": {
         "statement_model": st_stats,
         "declaration_model": decl_stats,
         "library_model": lib_stats,
+        "type_library_model": lib2_stats,
         "rule": "units from the AST-level generator (TYPE blocks with enumeration / alias / subrange / array / simple / string / structure / "
                 "structure-initialization declarations; FUNCTION / FUNCTION_BLOCK / PROGRAM with every VAR class x qualifier x ten initialiser "
                 "kinds; all statement forms; expressions over all operators, unary operators, calls, structured and array variables, typed and "
